@@ -1,4 +1,5 @@
 import GoSQLXModel.Model.ExprGen
+import GoSQLXModel.Proofs.ExprMono
 import GoSQLXModel.Proofs.ExprRoundTrip
 /-!
 # C03 — The parsed tree is the tree the SQL grammar prescribes
@@ -67,6 +68,16 @@ theorem eof_stops : PrimStop [eof] ∧ N1 [eof] := by
     ⟨⟨⟨⟨⟨⟨h _ (by decide), h _ (by decide), h _ (by decide)⟩, h _ (by decide), h _ (by decide)⟩, h _ (by decide)⟩,
       ⟨h _ (by decide), h _ (by decide), h _ (by decide), h _ (by decide), h _ (by decide), h _ (by decide), h _ (by decide),
         h _ (by decide), hp⟩⟩, h _ (by decide)⟩, h _ (by decide)⟩⟩
+/-- **C03 (expression ladder), without fuel**: the model parser as a function of the tokens alone (`parseExprAt`:
+    the fuel that always suffices; any larger fuel gives the same answer, `pExpr_stable`) reads every rendering back as
+    its tree -/
+theorem expression_round_trip_fuel_free (g : G) (hw : g.WF = true) (X : List PTok) (hp : PrimStop X) (hn : N1 X)
+    (hd : need 1 g + 1 ≤ maxDepth) : parseExprAt 0 (render 1 g ++ X) = .ok g.toEx X := by
+  obtain ⟨f0, h⟩ := expression_round_trip g hw X hp hn hd
+  have := h (max f0 (10 * (render 1 g ++ X).length + 8)) (Nat.le_max_left _ _)
+  rw [pExpr_stable 0 _ _ (Nat.le_max_right _ _)] at this
+  exact this
+
 /-- **C03 (no ambiguity)**: the text determines the tree — two well-formed model trees whose renderings coincide denote
     the same expression tree (the parser is a function of the tokens and reads each rendering back as its tree) -/
 theorem text_determines_tree (g1 g2 : G) (w1 : g1.WF = true) (w2 : g2.WF = true)
